@@ -36,6 +36,11 @@ func H_C14_DoernerDerive() {
 	for d := 0; d < depth; d++ {
 		idx := vsym.Uint32([]string{"index0", "index1", "index2", "index3"}[d])
 		vsym.Assume(idx < 1<<31)
+		if vsym.Choose("fixed-index", 2) == 1 {
+			// a concrete index whose four bytes all differ: a byte-order or truncation slip in ser32(i) shows as a
+			// counterexample without symbolic index, which the native replay reproduces
+			idx = 0x01020304
+		}
 		vsym.Assert(len(snd.ChainKey) == 32 && vsym.BytesEq(snd.ChainKey, rcv.ChainKey), "both sides hold the same 32-byte chain key")
 		mac := hmac.New(sha512.New, snd.ChainKey)
 		ser, _ := snd.Public.MarshalBinary()
